@@ -31,7 +31,7 @@ KEYS = {'K0': (1, 0, False), 'K1': (1, 0, True), 'K2': (2, 0, False), 'K3': (1, 
 LETTERS = [
     ('K0', 'AAA', 'base'), ('K0', 'AAC', 'base'), ('K0', 'ACC', 'base'), ('K0', 'NAA', 'base'),
     ('K0', 'AAA', 'r2shift'), ('K0', 'AAA', 'clip'), ('K0', 'AAA', 'error'), ('K0', 'AAC', 'r2shift'),
-    ('K1', 'AAA', 'base'), ('K1', 'AAC', 'base'),
+    ('K1', 'AAA', 'base'), ('K1', 'AAC', 'base'), ('K1', 'AAA', 'clip'),
     ('K2', 'AAA', 'base'), ('K2', 'AAC', 'base'),
     ('K3', 'AAA', 'base'), ('K3', 'AAC', 'base'),
     ('K4', 'AAA', 'base'),
@@ -58,6 +58,8 @@ def make(li, i, cls, dupflag=False):
         if variant == 'error':
             kw['error'] = True
         return nla_reads(f'f{i}', 'chr1', SITE + off, length, cell, umi, reverse=rev, duplicate_flag=dupflag, **kw)
+    if variant == 'clip':
+        kw['clip'] = 3
     return chic_reads(f'f{i}', 'chr1', SITE + off, length, cell, umi, reverse=rev, duplicate_flag=dupflag, **kw)
 
 
@@ -177,6 +179,26 @@ def check_word(word, cls, d, cap, pooling, dup_pattern=0, second_pass=False):
             merged = any(len({truth[x] for x in g}) > 1 for g in part)
             viol[f'{pre}:d0:' + ('distinct-molecules-merged' if merged else 'one-molecule-split')] = {
                 'got': sorted(part), 'want': want_part}
+    if d == 0 and cap is not None and cls in ('nla', 'chic0'):
+        # documented behaviour of the cap: a molecule takes at most `cap` fragments, every further fragment of that
+        # molecule is emitted as its own (overflow) molecule - and fragments of OTHER molecules are not affected
+        want = {}
+        order = []
+        for i in range(n):
+            t = truth[f'f{i}']
+            if t not in want:
+                want[t] = []
+                order.append(t)
+            want[t].append(f'f{i}')
+        want_part = []
+        for t in order:
+            names = want[t]
+            want_part.append(sorted(names[:cap]))
+            for x in names[cap:]:
+                want_part.append([x])
+        if sorted(part) != sorted(want_part):
+            viol[f'{pre}:d0:capped:partition-differs-from-first-cap-fragments-plus-singletons'] = {
+                'got': sorted(part), 'want': sorted(want_part), 'cap': cap}
     # completeness for PCR/sequencing errors in the UMI: fragments of one (cell, site, strand) whose UMIs are ALL pairwise
     # within the allowed distance (no N involved) form one molecule, whatever representative the greedy assignment uses
     if cap is None and cls in ('nla', 'chic0') and d > 0:
@@ -216,6 +238,16 @@ def check_word(word, cls, d, cap, pooling, dup_pattern=0, second_pass=False):
                 viol[f'{pre}:af-differs-from-molecule-size'] = {'af': af, 'n': len(frs)}
             if tf is None or tf < len(frs) or (cap is None and tf != len(frs)):
                 viol[f'{pre}:TF-inconsistent-with-molecule-size'] = {'TF': tf, 'n': len(frs), 'cap': cap}
+            elif cap is not None and d == 0 and cls in ('nla', 'chic0'):
+                # total fragments of a capped molecule = fragments it holds + fragments it refused = size of the true class;
+                # an overflow singleton counts only itself
+                names_m = sorted({r.query_name for r in m.iter_reads()})
+                true_n = sum(1 for x in truth if truth[x] == truth[names_m[0]])
+                first_of_class = min(int(x[1:]) for x in truth if truth[x] == truth[names_m[0]])
+                is_main = any(int(x[1:]) == first_of_class for x in names_m)
+                want_tf = true_n if is_main else len(frs)
+                if tf != want_tf:
+                    viol[f'{pre}:d0:capped:TF-differs-from-true-fragment-count'] = {'TF': tf, 'want': want_tf, 'molecule': names_m, 'cap': cap}
         if nd != 1:
             viol[f'{pre}:{inflag}:molecule-with-{"no" if nd == 0 else "several"}-non-duplicate-fragments'] = {
                 'fragments': len(frs), 'non_duplicate': nd, 'dup_pattern': dup_pattern}
